@@ -186,6 +186,18 @@ def install(rec):
                 rec.check("scheme", "cap", worst <= cap_eff, mech=f"{entry}:bond_above_cap",
                           detail=dict(detail, worst=worst), sig=sig)
             # exactness
+            if str(mode) not in ("mps", "full-bond", "projector", "direct", "dm", "peps") and cutoff not in (0.0, 0, None):
+                # pseudo-canonical / randomised 1D compressors apply the cutoff in a
+                # non-orthonormal gauge: only judged when no cutoff is applied at all
+                rec.count("scheme", "exact", "truncating")
+                return
+            if str(mode) not in ("mps", "full-bond", "projector", "direct", "dm", "peps") and max_bond is not None \
+                    and max_bond < float(s["D"]) ** (2 * side * layers):
+                # ... and their partial (pseudo-canonical) factors can have a larger
+                # rank than the boundary itself: a cap at the exact boundary rank may
+                # still truncate
+                rec.count("scheme", "exact", "truncating")
+                return
             if untruncating(self if res is not self else res, max_bond, cutoff, side, layers, co) or \
                     (max_bond is not None and max_bond >= float(s["D"]) ** (side * layers) and cutoff in (0.0, 1e-10)):
                 if not untruncating(res if hasattr(res, "tensor_map") else self, None, cutoff, side, layers, co) \
